@@ -562,6 +562,11 @@ func c13RunConcHistory(run *vk.Run, hidx int, r *rand.Rand, keys []c13cKeySpec, 
 	defer s.Close()
 	ng := 4 + r.Intn(5)
 	nops := 200
+	if os.Getenv("VERIF_RACE") == "1" {
+		// the instrumented repeat is there for the race detector; porcupine itself runs
+		// ~100x slower instrumented, so keep its histories small
+		ng, nops = 3+r.Intn(2), 120
+	}
 	base := time.Now()
 	var done sync.WaitGroup
 	start := &c13cBarrier{n: int32(ng)}
@@ -575,6 +580,7 @@ func c13RunConcHistory(run *vk.Run, hidx int, r *rand.Rand, keys []c13cKeySpec, 
 		}(g)
 	}
 	done.Wait()
+	run.Count("workload_ms_total", time.Since(base).Milliseconds())
 	for _, ks := range keys {
 		var recs []c13cRec
 		for g := range all {
@@ -599,7 +605,10 @@ func c13RunConcHistory(run *vk.Run, hidx int, r *rand.Rand, keys []c13cKeySpec, 
 		if panicked {
 			continue
 		}
-		res := porcupine.CheckOperationsTimeout(c13cModel, ops, 60*time.Second)
+		t0 := time.Now()
+		res := porcupine.CheckOperationsTimeout(c13cModel, ops, c13cCheckTimeout(run))
+		run.Count("checker_ms_total", time.Since(t0).Milliseconds())
+		run.Max("checker_ms_max", time.Since(t0).Milliseconds())
 		switch res {
 		case porcupine.Ok:
 			run.Count("key_histories_linearizable", 1)
@@ -615,6 +624,15 @@ func c13RunConcHistory(run *vk.Run, hidx int, r *rand.Rand, keys []c13cKeySpec, 
 		}
 		run.Count("key_histories_checked", 1)
 	}
+}
+
+// c13cCheckTimeout: 60 s per key history (DESIGN 2.2); the instrumented quick-tier
+// repeat gives up earlier so that the tier stays bounded. Unknown is inconclusive.
+func c13cCheckTimeout(run *vk.Run) time.Duration {
+	if os.Getenv("VERIF_RACE") == "1" && !run.Thorough() {
+		return 20 * time.Second
+	}
+	return 60 * time.Second
 }
 
 func c13cBudget(run *vk.Run, quick, thorough int) int {
